@@ -254,29 +254,39 @@ def build(mir, cube):
         def to_json(self, m): return {'positions': True}
     class Op:
         def op_json(self, m):
-            return {'op': 'try_load', 'asset': cube['asset'], 'checksum_known': ev(m, has_ck), 'answers': [RESP[ev(m, r0)], RESP[ev(m, r1)]], 'parse_ok': ev(m, parse_ok),
-                    'in_dynamic_branch': ev(m, in_dyn), 'redirect_count': ev(m, rc), 'max_redirects': ev(m, maxr)}
+            route = 'jsr_specifier' if ev(m, has_vi) else 'registry_url' if ev(m, has_vfut) else 'plain'
+            reg = route == 'registry_url'
+            return {'op': 'try_load', 'asset': cube['asset'], 'checksum_known': ev(m, has_ck) if route != 'jsr_specifier' else False, 'answers': [RESP[ev(m, r0)], RESP[ev(m, r1)]], 'parse_ok': ev(m, parse_ok),
+                    'in_dynamic_branch': ev(m, in_dyn), 'redirect_count': ev(m, rc), 'max_redirects': ev(m, maxr), 'route': route,
+                    'manifest_load_ok': ev(m, vfut_ok) if reg else True, 'manifest_covers_file': ev(m, sub_listed) if reg else True,
+                    'manifest_checksum_usable': ev(m, manifest_ck_ok) if (reg or jsr) else True}
         def decode(self, m):
             seen = [{'cache_setting': CS[ev(m, c[3])], 'checksum': ev(m, c[4])} for c in calls if ev(m, c[0])]
+            if jsr and not ev(m, manifest_ck_ok): return {'calls': seen, 'result': 'err:Load:Jsr' if ev(m, z3.And(slots_after.present[0], slots_after.vals[0].tag == en['ModuleSlot'].index('Err'))) else 'absent'}
             if ev(m, is_err):
                 k_ = MEK[ev(m, errk.tag)]; d = k_
                 if k_ == 'Load' and isinstance(mle, EnumV):
                     d += ':' + MLE[ev(m, mle.tag)]
                 return {'calls': seen, 'result': 'err:' + d}
             return {'calls': seen, 'result': 'module' if ev(m, okModule) else 'redirect' if ev(m, okRedirect) else 'external'}
-    # natively rebuildable through a real build: a plain https module (no registry, no embedded version info), first hop, default redirect limit
-    real = ([z3.Not(item_ck), has_locker, z3.Not(registry_url)] if pending else []) + [parse_ok, z3.Not(has_vi), z3.Not(has_vfut), rc == 0, maxr == 10, has_range, z3.Not(has_spr), z3.Not(has_attr) if not cube['asset'] else has_attr, z3.Not(is_root), z3.Not(was_dyn_root), z3.Not(in_dyn)]
+    # natively rebuildable through a real build with a scripted loader: an ordinary https module (lockfile checksum or none), an https URL into
+    # the registry (version manifest served or not, listing the file or not, usable checksum or not), or a file of a jsr: package (embedded
+    # version info, manifest checksum); first hop, default redirect limit, static import
+    plain_r = z3.And(z3.Not(has_vi), z3.Not(has_vfut)); reg_r = z3.And(z3.Not(has_vi), has_vfut); jsr_r = z3.And(has_vi, z3.Not(has_vfut), has_ck)
+    real = [z3.Or(plain_r, reg_r, jsr_r), z3.Implies(reg_r, sub_listed), parse_ok, rc == 0, maxr == 10, has_range, z3.Not(has_spr), z3.Not(has_attr) if not cube['asset'] else has_attr, z3.Not(is_root), z3.Not(was_dyn_root), z3.Not(in_dyn)]
+    if pending and not jsr: real += [has_locker, z3.Implies(has_vi, z3.And(item_ck, z3.Not(locker_has))), z3.Implies(z3.Not(has_vi), z3.Not(item_ck))]
+    if jsr: real += [has_locker, z3.Not(locker_has)]
     kw = dict(ops=[Op()], world=W(), realizable=real)
     if cube.get('op_only'): return eng, W(), [], [Query('op', FALSE, **kw)]
     if jsr:
-        kw = {}      # a registry package cannot be rebuilt by the native replay: these cubes are decided by the solver alone (a counterexample is reported as inconclusive)
+        if cube.get('info') and not cube['asset']: kw = {}      # embedded module information (moduleGraph2) is not rebuilt by the native replay: that cube is decided by the solver alone
         SLOT = en['ModuleSlot']; sv = slots_after.vals[0]
         slot_is = lambda name: z3.And(slots_after.present[0], sv.tag == SLOT.index(name))
         jsr_qs = [Query('no-panic', Or(g for _, g in eng.panics)),
-                  Query('an-unusable-manifest-checksum-is-an-error-entry-and-nothing-is-loaded', z3.And(z3.Not(manifest_ck_ok), z3.Or(Or(c[0] for c in calls), queued[0][0], z3.Not(slot_is('Err'))))),
+                  Query('an-unusable-manifest-checksum-is-an-error-entry-and-nothing-is-loaded', z3.And(z3.Not(manifest_ck_ok), z3.Or(Or(c[0] for c in calls), queued[0][0], z3.Not(slot_is('Err')))), **kw),
                   Query('otherwise-exactly-one-load-future-is-queued-and-the-file-is-marked-pending', z3.And(manifest_ck_ok, z3.Or(z3.Not(queued[0][0]), z3.Not(ready_), z3.Not(slot_is('Pending'))))),
-                  Query('every-loader-call-carries-exactly-the-manifest-checksum', Or(z3.And(c[0], z3.Or(z3.Not(c[4]), c[5] != CK_MANIFEST)) for c in calls)),
-                  Query('loader-is-asked-for-the-file-with-the-request-flags', Or(z3.And(c[0], z3.Or(c[2] != 0, c[7] != was_dyn_root)) for c in calls))]
+                  Query('every-loader-call-carries-exactly-the-manifest-checksum', Or(z3.And(c[0], z3.Or(z3.Not(c[4]), c[5] != CK_MANIFEST)) for c in calls), **kw),
+                  Query('loader-is-asked-for-the-file-with-the-request-flags', Or(z3.And(c[0], z3.Or(c[2] != 0, c[7] != was_dyn_root)) for c in calls), **kw)]
         for fname_ in sorted({f for f, _ in eng.exceeded}): jsr_qs.append(Query('unwinding:' + fname_.split('>::')[-1], Or(g for f, g in eng.exceeded if f == fname_), kind='unwind'))
     if jsr and cube.get('info') and not cube['asset']:
         # embedded module information: one cache-only probe, then either the embedded information (content deferred) or what the cache delivered
@@ -336,9 +346,9 @@ def build(mir, cube):
     if jsr:
         qs = [q for q in qs if q.name not in ('no-panic', 'witness-manifest-checksum-used', 'witness-lockfile-checksum-reaches-the-loader', 'witness-retry-delivers-a-module', 'witness-integrity-error', 'witness-checksummed-redirect-rejected', 'witness-redirect-followed', 'an-unchecksummed-redirect-is-followed-up-to-the-limit')]
         for q in qs:
-            q.formula = z3.And(manifest_ck_ok, q.formula); q.ops, q.world, q.realizable = [], None, None
-        qs = jsr_qs + qs + [Query('witness-integrity-error-inside-a-package', z3.And(manifest_ck_ok, g1, A(r0, 'ChecksumError'), err_is('Load', 'Jsr', 'ContentChecksumIntegrity')), expect='sat', kind='witness'),
-                            Query('witness-module-from-the-package', z3.And(manifest_ck_ok, okModule if not cube['asset'] else okExternal), expect='sat', kind='witness')]
+            q.formula = z3.And(manifest_ck_ok, q.formula)
+        qs = jsr_qs + qs + [Query('witness-integrity-error-inside-a-package', z3.And(manifest_ck_ok, g1, A(r0, 'ChecksumError'), err_is('Load', 'Jsr', 'ContentChecksumIntegrity')), expect='sat', kind='witness', **kw),
+                            Query('witness-module-from-the-package', z3.And(manifest_ck_ok, okModule if not cube['asset'] else okExternal), expect='sat', kind='witness', **kw)]
     return eng, W(), list(sym.cons), qs
 
 def differential(mir, seed, count):
@@ -353,9 +363,12 @@ def differential(mir, seed, count):
     for c in range(count):
         asset = rng.random() < 0.4
         pin = {'is_root': False, 'in_dynamic_branch': False, 'was_dynamic_root': False, 'unstable_config_imports': False, 'checksum_known_on_entry': rng.random() < 0.6,
-               'version_info_embedded': False, 'registry_url_manifest_pending': False, 'manifest_load_ok': True, 'manifest_covers_file': False, 'manifest_checksum_usable': True,
+               'version_info_embedded': False, 'registry_url_manifest_pending': False, 'manifest_load_ok': rng.random() < 0.8, 'manifest_covers_file': True, 'manifest_checksum_usable': rng.random() < 0.8,
                'redirect_count': 0, 'max_redirects': 10, 'has_range': True, 'has_source_phase_referrer': False, 'has_attribute': asset,
                'loader_answer_0': rng.randrange(len(RESP)), 'loader_answer_1': rng.randrange(len(RESP)), 'parse_ok': True, 'scheme0': 0, 'scheme1': 0, 'scheme2': 0}
+        route = rng.choice(['plain', 'registry_url', 'jsr_specifier'])
+        if route == 'registry_url': pin['registry_url_manifest_pending'] = True
+        if route == 'jsr_specifier': pin['version_info_embedded'] = True; pin['checksum_known_on_entry'] = True
         try:
             me.Sym = lambda: orig(pin)
             eng, _, base, qs = build(mir, {'asset': asset, 'op_only': True})
